@@ -39,7 +39,7 @@ func vhIndex(name string) int {
 func c04(args []string) int {
 	run := NewRun("C04", args)
 	g := &rtGen{r: run.R}
-	run.Sum.Rule = "configurations: 1-8 virtual hosts, 0-3 domains each drawn without repetition (95%) from an overlapping pool (exact / mixed case / *.suffix / *suffix / :port / :* / default / IPv6 literal), 2% odd or rejected domains, 3% unrestricted draws (duplicates), 0-6 routes per host mixing prefix / path / regex (+header, method, regex-header matchers), variable (and/or), DSL and RPC rules, 4% of configurations with an unbuildable route; per configuration a battery of requests (Host from a pool with/without port, mixed case, malformed, empty, unset; path; method; 0-3 headers; variables). Each request is looked up with the real MatchRoute and MatchAllRoutes and on a probe table (same domains, one catch-all route per host) that shows which virtual host was selected. A lookup is non-trivial when the configuration was accepted and has >= 2 virtual hosts; distinct by (configuration number, request)."
+	run.Sum.Rule = "configurations: 1-8 virtual hosts, 0-3 domains each drawn without repetition (95%) from an overlapping pool (exact / mixed case / *.suffix / *suffix / :port / :* / default / IPv6 literal), 2% odd or rejected domains, 3% unrestricted draws (duplicates), 0-6 routes per host mixing prefix / path / regex (+header, method, regex-header matchers), variable (and/or), DSL and RPC rules, 25% of the virtual hosts with 2-6 routes that are ALL of the fast-index shape (one exact header on a prefix / path / RPC rule, `service` fast match incl. `.*`, keys and values from a pool of 4 x 5 so that routes share keys and several match), 4% of configurations with an unbuildable route; per configuration a battery of requests (Host from a pool with/without port, mixed case, malformed, empty, unset; path; method; 0-3 headers; variables). plus requests aimed at each such virtual host carrying the header matchers of several of its routes; every lookup is repeated 8 times (map order). Each request is looked up with the real MatchRoute, MatchAllRoutes and MatchRouteFromHeaderKV (for its own headers) and on a probe table (same domains, one catch-all route per host) that shows which virtual host was selected. A lookup is non-trivial when the configuration was accepted and has >= 2 virtual hosts; distinct by (configuration number, request)."
 	ncfg := run.N(260, 2600)
 	nreq := run.N(14, 24)
 	sh := run.NewShard(rtShardHeader, "rt_case", "rt_mismatches")
@@ -83,7 +83,22 @@ func c04(args []string) int {
 					}
 				}
 			}
+			// requests aimed at the virtual hosts whose routes are all single-exact-header rules (several routes match)
+			for _, vh := range c {
+				if vh.Indexed {
+					for k := 0; k < 4; k++ {
+						reqs = append(reqs, g.requestFor(vh))
+					}
+				} else if run.R.Pct(20) {
+					reqs = append(reqs, g.requestFor(vh))
+				}
+			}
+			type kvAns struct {
+				k, v, one string
+				found     bool
+			}
 			type ans struct {
+				kvs []kvAns
 				vh       int
 				one      string
 				found    bool
@@ -98,6 +113,15 @@ func c04(args []string) int {
 					a.vh = vhIndex(pone)
 				}
 				a.one, a.found, a.all = lookup(real, q)
+				// MatchRouteFromHeaderKV for the request's own headers and a pair that is (probably) not indexed
+				for _, hk := range sortedKeys(q.Hdr) {
+					kv := kvAns{k: hk, v: q.Hdr[hk]}
+					kv.one, kv.found = lookupKV(real, q, kv.k, kv.v)
+					a.kvs = append(a.kvs, kv)
+				}
+				kv := kvAns{k: "k1", v: "no-such-value"}
+				kv.one, kv.found = lookupKV(real, q, kv.k, kv.v)
+				a.kvs = append(a.kvs, kv)
 				answers[k] = a
 			}
 			// purity: the same lookups again, concurrently and in reverse order, must give the same answers
@@ -107,8 +131,15 @@ func c04(args []string) int {
 				wg.Add(1)
 				go func(k int) {
 					defer wg.Done()
-					a := ans{}
-					a.one, a.found, a.all = lookup(real, reqs[k])
+					// several rounds: an answer that depends on Go's map iteration order shows up as a changing answer
+					a := answers[k]
+					for round := 0; round < 7; round++ {
+						one, found, all := lookup(real, reqs[k])
+						if one != a.one || found != a.found || fmt.Sprint(all) != fmt.Sprint(a.all) {
+							a.one, a.found, a.all = one, found, all
+							break
+						}
+					}
 					again[k] = a
 				}(k)
 			}
@@ -170,6 +201,34 @@ func c04(args []string) int {
 					if fmt.Sprint(wantAll) != fmt.Sprint(a.all) {
 						run.Fail("c04:all-matches", fmt.Sprintf("virtual host %d: matching routes are %v, MatchAllRoutes returned %v", a.vh, wantAll, a.all), rep)
 					}
+					// the selected route is the first of all matching routes (both answers come from the implementation)
+					if (a.found && (len(a.all) == 0 || a.all[0] != a.one)) || (!a.found && len(a.all) > 0) {
+						run.Fail("c04:first-match:match-route-differs-from-first-of-all-routes", fmt.Sprintf("virtual host %d: MatchRoute returned %q (found=%v) but MatchAllRoutes returned %v", a.vh, a.one, a.found, a.all), rep)
+					}
+					if len(wantAll) >= 2 {
+						kind += ",several-match"
+					}
+					if c[a.vh].Indexed {
+						kind += ",all-routes-indexed"
+					}
+					// MatchRouteFromHeaderKV: the route recorded under key/value = the LAST route of the virtual host whose only header
+					// criterion is key == value (exact); where it is the single route matching the request, MatchRoute must return it too
+					for _, kv := range a.kvs {
+						wantKV, wantKVFound, nKV := "", false, 0
+						for _, rt := range c[a.vh].Routes {
+							if ik, iv, ok := rt.indexKey(); ok && ik == kv.k && iv == kv.v {
+								wantKV, wantKVFound = rt.Cluster, true
+								nKV++
+							}
+						}
+						if nKV <= 1 && (wantKVFound != kv.found || wantKV != kv.one) {
+							run.Fail("c04:header-kv:wrong-route", fmt.Sprintf("virtual host %d: the only route indexed under %s=%q is %q (exists=%v), MatchRouteFromHeaderKV returned %q (found=%v)", a.vh, kv.k, kv.v, wantKV, wantKVFound, kv.one, kv.found), rep)
+						}
+						if kv.found && len(wantAll) == 1 && wantAll[0] == kv.one && a.one != kv.one {
+							run.Fail("c04:header-kv:disagrees-with-match-route", fmt.Sprintf("virtual host %d: %q is the only matching route and is indexed under %s=%q, MatchRoute returned %q", a.vh, kv.one, kv.k, kv.v, a.one), rep)
+						}
+						run.Sum.Distribution[fmt.Sprintf("header-kv-found=%v", kv.found)]++
+					}
 					if a.found {
 						kind += ",route"
 					} else {
@@ -186,7 +245,11 @@ func c04(args []string) int {
 				for _, s := range a.all {
 					allq = append(allq, CoqString(s))
 				}
-				obs = append(obs, fmt.Sprintf("(%s, %s, %s, %s)", c.coqReq(q), CoqOption(a.vh >= 0, CoqNat(a.vh)), CoqOption(a.found, CoqString(a.one)), CoqList(allq)))
+				var kvq []string
+				for _, kv := range a.kvs {
+					kvq = append(kvq, fmt.Sprintf("(%s, %s, %s)", CoqString(kv.k), CoqString(kv.v), CoqOption(kv.found, CoqString(kv.one))))
+				}
+				obs = append(obs, fmt.Sprintf("(%s, %s, %s, %s, %s)", c.coqReq(q), CoqOption(a.vh >= 0, CoqNat(a.vh)), CoqOption(a.found, CoqString(a.one)), CoqList(allq), CoqList(kvq)))
 				descr = append(descr, rep)
 			}
 		} else {
